@@ -326,6 +326,7 @@ func runC08(c *Ctx) {
 	if nRem == 0 || nRen == 0 {
 		r.Und("C08.names", "instance-floor", "", "os.Remove / os.Rename sites not found")
 	}
+	c.ruleRenameTarget("C08.names")
 	// the glob pattern is the sink's own: Join(Path, Sprintf(fileNamePattern(), "*"))
 	if pf := c.Fn("C08.names", PkgRoot, "FileSink", "pruneFiles"); pf != nil {
 		g := callsTo(pf, func(n string, cc *ssa.CallCommon) bool { return n == "path/filepath.Glob" })
@@ -1065,14 +1066,8 @@ func runC15(c *Ctx) {
 			}
 		})
 		r.Check(okNil, "C15.prune", "rotate:forget-file", p.Pos(fn.Pos()), "fs.f is reset after the close so that open() creates the next file", "rotate does not forget the closed file: open() would return early and keep writing to a closed file")
-		// rename target uses the same pattern with UnixNano
-		for _, ci := range callsTo(fn, func(n string, cc *ssa.CallCommon) bool { return n == "os.Rename" }) {
-			oldT, newT := tb.Of(ci.Common().Args[0]), tb.Of(ci.Common().Args[1])
-			ok := strings.Contains(oldT.String(), "Field[FileName](Param(0:fs))") && strings.Contains(newT.String(), "(*eventlogger.FileSink).fileNamePattern") && strings.Contains(newT.String(), "(time.Time).UnixNano") &&
-				strings.Contains(oldT.String(), "Field[Path](Param(0:fs))") && strings.Contains(newT.String(), "Field[Path](Param(0:fs))")
-			r.Check(ok, "C15.name", "rotate:rename-target", p.InstrPos(ci), "timestamp-only mode renames Path/FileName to Path/pattern(UnixNano)", "the rotated file is not renamed from the plain configured name to the sink's pattern filled with a UnixNano timestamp")
-		}
 	}
+	c.ruleRenameTarget("C15.name")
 	// --- C15.name
 	if fn := c.Fn("C15.name", PkgRoot, "FileSink", "newFileName"); fn != nil {
 		rows := map[string]bool{}
@@ -1287,6 +1282,10 @@ func runC15(c *Ctx) {
 			}
 		}
 	}
+	// --- C15.count: who may write the rotation inputs. The trigger is stated over the bytes
+	// written and the age of the file "since it was opened": only open() may reset them and
+	// only the successful write may add to BytesWritten.
+	c.ruleRotationInputWriters("C15.count")
 	// --- C15.count (the add in Process is checked by C13.file as C15.count)
 	if fn := c.Fn("C15.count", PkgRoot, "FileSink", "Process"); fn != nil {
 		okCount := false
@@ -1329,6 +1328,68 @@ func runC15(c *Ctx) {
 		}
 		okOrder = okOrder && nFilePaths > 0
 		r.Check(okOrder, "C15.trigger", "(*FileSink).Process:rotate-before-write", p.Pos(fn.Pos()), "rotation is evaluated once per write, before writing", "rotate() is not called exactly once per Process before the write")
+	}
+}
+
+// ruleRotationInputWriters: BytesWritten is written only by open() (reset to 0, together with
+// LastCreated = the creation time) and by the successful write (+= n); LastCreated only by open().
+func (c *Ctx) ruleRotationInputWriters(rule string) {
+	p, r := c.P, c.R
+	n := 0
+	for _, f := range p.FuncsIn(PkgRoot) {
+		tb := p.NewTerms(nil)
+		eachInstr(f, func(in ssa.Instruction) {
+			st, ok := in.(*ssa.Store)
+			if !ok {
+				return
+			}
+			fa, ok := st.Addr.(*ssa.FieldAddr)
+			if !ok || typeShort(fa.X.Type()) != "eventlogger.FileSink" || isFresh(fa.X) {
+				return
+			}
+			nm := fa.X.Type().Underlying().(*types.Pointer).Elem().Underlying().(*types.Struct).Field(fa.Field).Name()
+			if nm != "BytesWritten" && nm != "LastCreated" {
+				return
+			}
+			n++
+			v := tb.Of(st.Val)
+			ok2 := false
+			switch {
+			case f.Name() == "open" && nm == "BytesWritten" && v.Is("Const", "0"):
+				ok2 = true
+			case f.Name() == "open" && nm == "LastCreated" && v.Op == "Call" && v.Name == "time.Now":
+				ok2 = true
+			case nm == "BytesWritten" && v.Op == "Bin" && v.Name == "+" && v.Args[0].Is("Field", "BytesWritten") && v.Args[1].Op == "Extract" && v.Args[1].Args[0].Name == "(*bytes.Reader).WriteTo":
+				ok2 = true
+			}
+			r.Check(ok2, rule, p.ShortFn(f)+":writes:"+nm, p.InstrPos(in), "rotation input written only by open() (reset) or by the successful write (+= n)",
+				"rotation input "+nm+" is assigned "+v.String()+" outside open()'s reset / the successful write's increment: the size/age 'since the file was opened' that drives rotation is no longer what the trigger assumes")
+		})
+	}
+	if n < 3 {
+		r.Und(rule, "instance-floor", "", fmt.Sprintf("only %d writes of BytesWritten/LastCreated found", n))
+	}
+}
+
+// ruleRenameTarget: the rotated file's new name is the sink's pattern filled with a UnixNano
+// timestamp (rotations within one second must not collide: os.Rename silently replaces).
+func (c *Ctx) ruleRenameTarget(rule string) {
+	p, r := c.P, c.R
+	fn := c.Fn(rule, PkgRoot, "FileSink", "rotate")
+	if fn == nil {
+		return
+	}
+	tb := p.NewTerms(nil)
+	rn := callsTo(fn, func(n string, cc *ssa.CallCommon) bool { return n == "os.Rename" })
+	if len(rn) == 0 {
+		r.Und(rule, "rotate:rename-target", p.Pos(fn.Pos()), "no os.Rename in rotate")
+	}
+	for _, ci := range rn {
+		oldT, newT := tb.Of(ci.Common().Args[0]), tb.Of(ci.Common().Args[1])
+		ok := strings.Contains(oldT.String(), "Field[FileName](Param(0:fs))") && strings.Contains(newT.String(), "(*eventlogger.FileSink).fileNamePattern") && strings.Contains(newT.String(), "(time.Time).UnixNano") &&
+			strings.Contains(oldT.String(), "Field[Path](Param(0:fs))") && strings.Contains(newT.String(), "Field[Path](Param(0:fs))")
+		r.Check(ok, rule, "rotate:rename-target", p.InstrPos(ci), "timestamp-only mode renames Path/FileName to Path/pattern(UnixNano): rotated names cannot collide within a second",
+			"the rotated file is not renamed from the plain configured name to the sink's pattern filled with a UnixNano timestamp: two rotations within the timestamp's resolution get the same name and os.Rename silently replaces the earlier rotated file (acknowledged events lost)")
 	}
 }
 
